@@ -181,7 +181,17 @@ class CompMixin(Interp):
             info = getattr(self, "_idx_stack", [None])[-1]
             return [("one", tuple(binders), guard, body_fn(), seqsrc, info)]
         g = gens[0]
-        src = self.source(st, self.ev(g.iter, st))
+        itv = self.ev(g.iter, st)
+        if isinstance(itv, VParts):
+            # iteration over the concatenation of several comprehension pieces: one piece of the result per piece
+            out = []
+            for f in itv.fams:
+                out += self._comp_src(st, self.source(st, f), gens, body_fn, binders, guard, all_concrete, seqsrc, kind)
+            return out
+        return self._comp_src(st, self.source(st, itv), gens, body_fn, binders, guard, all_concrete, seqsrc, kind)
+
+    def _comp_src(self, st, src, gens, body_fn, binders, guard, all_concrete, seqsrc, kind):
+        g = gens[0]
         out = []
         if src.concrete:
             for item in src.items:
@@ -357,6 +367,12 @@ class CompMixin(Interp):
         kty = self.type_of(key)
         x, pairs, resid, und = self.invert_key(st, binders, key, kty, partial=True)
         body = t_and(z3.substitute(guard, *pairs) if pairs else guard, resid)
+        if isinstance(val, VRef):
+            # a container built per element (e.g. the inner dict of a nested dict comprehension) is stored by value; the
+            # comprehension variables inside it must be rewritten to the key like everything else
+            h = self.resolve(st, val)
+            st.aliases.append((val.root, val.path))
+            val = h
         v2 = subst(val, pairs)
         if und:
             cp, dom = self.choose(st, x, und, body)
@@ -365,10 +381,6 @@ class CompMixin(Interp):
                                   "last-writer semantics abstracted by a choice function")
         else:
             dom = z3.simplify(body)
-        if isinstance(v2, VRef):
-            h = self.resolve(st, v2)
-            st.aliases.append((v2.root, v2.path))
-            v2 = h
         return HDict(kty, x, dom, v2, None, None)
 
     # ------------------------------------------------------------------ aggregates
